@@ -182,7 +182,7 @@ def linsys_stream(tier, seed, violations, bycf, meta):
     (control)}; the cases are appended to the main stream's batches (converged values judged by the certified enclosure,
     exact in Viterbi/Bool)"""
     rng = random.Random(seed * 131 + 17)
-    n = int(os.environ.get("VERIF_N_LINSYS", 0)) or (48 if tier == "quick" else 1200)
+    n = int(os.environ.get("VERIF_N_LINSYS", 0)) or (40 if tier == "quick" else 1200)
     feats = {}; distinct = set(); hist = dict(method={}, semiring={}, ids={}, patterned=0, staged=0)
     total = 0; sample = None
     for i in range(n):
@@ -195,7 +195,7 @@ def linsys_stream(tier, seed, violations, bycf, meta):
         for ci, sr in enumerate(CONFIGS2):
             rot = LINSYS_METHODS[(i + ci) % len(LINSYS_METHODS)]
             # the cheap exact semirings get both solvers on every grammar
-            for method in ([rot] if sr.name in ("real", "log") else sorted({"linear", "newton", rot})):
+            for method in ([rot] if sr.name in ("real", "log") else ["linear", "newton"]):
                 mi = METHODS.index(method)
                 kmax = 400; tol = 1e-10 if sr.name in ("real", "log") else 1e-6
                 call = "fggs.sum_products(fgg, method=%r, semiring=%r, tol=%g, kmax=%d)" % (method, sr, tol, kmax)
@@ -292,7 +292,7 @@ def run(tier, seed):
     ncov = newton_stream(tier, seed, violations)
     total += ncov["evaluations"]; nk += ncov["kernel_reevaluated"]
     cov = dict(evaluations=total, distinct_nontrivial=len(distinct) + ncov["distinct_nontrivial"] + lcov["distinct_nontrivial"], newton_stream=ncov, linear_system_stream=lcov,
-               rule="main stream: random recursive FGG specs (self-loops, mutually recursive SCCs, linear/non-linear recursion, weight-one cycles in Viterbi/Bool; Real/Log weights damped by 1/4; one sixth chain grammars with deep best derivations; half with sparse PatternedTensor weights where the values allow; a fifth built in two stages with a query in between) x {Real, Log, Viterbi, Bool} x method rotating over fixed-point/newton/linear; one third of the runs with budget kmax in {1,2} (warning expected when the first kmax+1 stopping tests provably fail), the rest with kmax=400 (values judged against the certified enclosure); all grammars are recursive hence non-trivial; distinct by spec. Linear-system stream (gen.linear_system_spec): linearly recursive systems of 2-3 nonterminals, at least two of them NON-scalar (arity 1-2 over domains of size 1-3, different node labels => rectangular Jacobian blocks), self-loops on a random subset (diagonal blocks with off-diagonal entries), usually one SCC through all of them (multi_solve eliminates block by block: solves with a matrix right-hand side), otherwise block-triangular; dense blocks with about 30-80% exact zeros (mixed zero/non-zero rows and columns, whole zero rows), diagonal blocks (D(u) X(u)), arity-2 blocks T (x) I, two rules for one block, and half of the systems 'functional' (partial permutations inside a nonterminal, one or two entry points between nonterminals, one or two terminating cells: unique derivations, so a lost Jacobian entry shows in Bool/Viterbi too); shuffled rule order and label positions (all elimination orders) x {Real, Log: one of linear/newton/fixed-point rotating; Viterbi, Bool: linear AND newton (+ fixed-point in rotation)} x dense/patterned weights x node-id styles, one seventh built in two stages; kmax=400, values judged against the certified enclosure; distinct by (spec, semiring, method). Newton stream: additionally non-linear variants of these systems (one rule with two component edges) so that Newton's inner multi_solve eliminates matrix blocks",
+               rule="main stream: random recursive FGG specs (self-loops, mutually recursive SCCs, linear/non-linear recursion, weight-one cycles in Viterbi/Bool; Real/Log weights damped by 1/4; one sixth chain grammars with deep best derivations; half with sparse PatternedTensor weights where the values allow; a fifth built in two stages with a query in between) x {Real, Log, Viterbi, Bool} x method rotating over fixed-point/newton/linear; one third of the runs with budget kmax in {1,2} (warning expected when the first kmax+1 stopping tests provably fail), the rest with kmax=400 (values judged against the certified enclosure); all grammars are recursive hence non-trivial; distinct by spec. Linear-system stream (gen.linear_system_spec): linearly recursive systems of 2-3 nonterminals, at least two of them NON-scalar (arity 1-2 over domains of size 1-3, different node labels => rectangular Jacobian blocks), self-loops on a random subset (diagonal blocks with off-diagonal entries), usually one SCC through all of them (multi_solve eliminates block by block: solves with a matrix right-hand side), otherwise block-triangular; dense blocks with about 30-80% exact zeros (mixed zero/non-zero rows and columns, whole zero rows), diagonal blocks (D(u) X(u)), arity-2 blocks T (x) I, two rules for one block, and half of the systems 'functional' (partial permutations inside a nonterminal, one or two entry points between nonterminals, one or two terminating cells: unique derivations, so a lost Jacobian entry shows in Bool/Viterbi too); shuffled rule order and label positions (all elimination orders) x {Real, Log: one of linear/newton/fixed-point rotating; Viterbi, Bool: linear AND newton} x dense/patterned weights x node-id styles, one seventh built in two stages; kmax=400, values judged against the certified enclosure; distinct by (spec, semiring, method). Newton stream: additionally non-linear variants of these systems (one rule with two component edges) so that Newton's inner multi_solve eliminates matrix blocks",
                case_kinds=kinds, value_checks_conclusive=conclusive, value_checks_inconclusive_discarded=inconclusive,
                feature_histogram=feats, kernel_reevaluated=nk, kleene_steps=K_ENCL,
                samples=([dict(spec=gen.spec_jsonable(s0[0]), semiring=repr(s0[1]), method=s0[2], tol=s0[3], kmax=s0[4], observed=s0[5])] if s0 else [])
